@@ -289,14 +289,15 @@ func pred(cl map[string]string, T *Config, status string) string {
 
 // owner: which property a check belongs to.
 var owner = map[string]string{
-	"exec": "C08", "conv": "C04", "svc": "C04", "grp": "C04", "idem": "C04", "frame": "C07", "scope": "C07",
+	"exec": "C08 C04", "conv": "C04", "svc": "C04", "grp": "C04", "idem": "C04", "frame": "C07", "scope": "C07",
 	"resume-exec": "C10", "resume-conv": "C10", "resume-idem": "C10", "resume-plan": "C10", "apply": "C08",
 }
 
 func (e *engine) fail(check, pr, what string, c *Case) {
 	key := "check-failed:" + check + ":" + pr
 	e.res.Count(key)
-	if owner[check] != e.prop {
+	// a call the manager rejects breaks C08 and, because the script is then not executed, C04 as well
+	if !strings.Contains(owner[check], e.prop) {
 		return
 	}
 	e.res.Fail(map[string]any{"pred": pr, "check": check, "backend": "NSX"}, what, c)
@@ -520,7 +521,7 @@ func runProp(ctx *Ctx, prop string) *Result {
 	res := NewResult()
 	res.Rule = "pairs (NSX manager state incl. objects outside Netspoc's scope, Netspoc target as IPv4/IPv6/raw files): several policies, " +
 		"rules sharing sequence numbers, groups renamed/shared/duplicated/edited incrementally or wholesale, services changed in place, " +
-		"id clashes, left-overs; streams base, big (>12 rules), ties, idclash, rawpolicy, unmref, spaced, dupcontent and the malformed " +
+		"id clashes, left-overs; streams base, big (>12 rules), ties, idclash, idsuffix (target ids <id>, <id>-<n> in both list orders with a clashing device id), rawpolicy, unmref, spaced, dupcontent and the malformed " +
 		"streams emptygroup, undefgroup, rawbad; real planner via LoadDevice against a local manager (88%) or drc.Main on files (12%). " +
 		"non-trivial = the real script has at least two calls of at least two kinds; distinct by canonical input text"
 	res.Assumptions = []string{
@@ -553,7 +554,7 @@ func runProp(ctx *Ctx, prop string) *Result {
 		name   string
 		weight int
 	}
-	streams := []sw{{"base", 60}, {"big", 5}, {"bigties", 3}, {"ties", 6}, {"idclash", 5}, {"rawpolicy", 3}, {"unmref", 3}, {"spaced", 3},
+	streams := []sw{{"base", 60}, {"big", 5}, {"bigties", 3}, {"ties", 6}, {"idclash", 5}, {"idsuffix", 6}, {"rawpolicy", 3}, {"unmref", 3}, {"spaced", 3},
 		{"dupcontent", 5}, {"emptygroup", 2}, {"undefgroup", 2}, {"rawbad", 6}}
 	total := 0
 	for _, s := range streams {
